@@ -147,24 +147,20 @@ def check_interner_ops(chk, prog, cfg, rule="R12.1"):
         chk.expect(ok, rule, "Interner::get", b.where(), detail, cfg)
     b = anchor(chk, prog, "interner::Interner::resolve")
     if b is not None:
-        rt = b.return_term()
-        alts = list(rt[1]) if rt[0] == "phi" else [rt]
-        ok = True
-        detail = path_str(rt)
-        n_get = 0
-        for a in alts:
-            if is_adt_agg(a, "core::option::Option", "None"):
-                continue
-            if is_call(a, "core::slice::<impl [T]>::get", nargs=2):
-                base = a[2][0]
-                idx = uncast(a[2][1])
-                ap = paths.access_path(b, idx)
-                if self_field(b, base, "vec") and ap and ap[0] == arg(b, 2) and ap[1] == ".id":
-                    n_get += 1
-                    continue
-            ok = False
-        no_assert = not any(bl["term"]["k"] == "assert" for bl in b.blocks if not bl["cleanup"])
-        chk.expect(ok and n_get == 1 and no_assert, rule, "Interner::resolve", b.where(), detail + ("" if no_assert else " (contains a panicking Assert)"), cfg)
+        from ..lib import symrun, absint as _ai
+        E = [_ai.Sym("e0"), _ai.Sym("e1"), _ai.Sym("e2")]
+        res = {}
+        try:
+            for pos in (0, 2, 3, 7):
+                r = symrun.Run(prog)
+                me = symrun.struct(prog, INT, "self", vec=("vec", tuple(E)))
+                sy = symrun.struct(prog, SYM, "sym", id=pos)
+                res[pos] = _ai.opt_view(r.run(b.path, [me, sy]))
+            ok = res[0] == ("Some", E[0]) and res[2] == ("Some", E[2]) and res[3] == ("None",) and res[7] == ("None",)
+            detail = "with 3 elements: resolve(0) = %s, resolve(2) = %s, resolve(3) = %s, resolve(7) = %s" % tuple(res[k] and (res[k][0] + ("(%s)" % res[k][1].name if len(res[k]) > 1 else "")) for k in (0, 2, 3, 7))
+        except _ai.Unrecognised as e:
+            ok, detail = False, "cannot interpret (or panics): %s" % e
+        chk.expect(ok, rule, "Interner::resolve", b.where(), detail + " (required: the element at that position, None beyond the end, never a panic)", cfg)
     b = anchor(chk, prog, "interner::Interner::elements")
     if b is not None:
         rt = b.return_term()
@@ -209,38 +205,46 @@ def check_builder_ops(chk, prog, cfg, rule="R12.2"):
         return
     fields = [f["name"] for f in adt["variants"][0]["fields"]]
     chk.expect(fields == ["types"], rule, "builder:fields", adt["loc"], "fields: %s" % fields, cfg)
-    b = anchor(chk, prog, "PortableRegistryBuilder::register_type")
-    if b is not None:
-        rt = b.return_term()
-        ap = None
-        ok = False
-        # into_untracked(intern_or_get(self.types, ty).1).id   (or .1.id directly)
-        t = rt
-        if t[0] == "field" and t[3] == "id":
-            t = t[1]
-            if is_call(t, "into_untracked", nargs=1):
-                t = t[2][0]
-            if t[0] == "field" and t[2] == 1:
-                c = t[1]
-                ok = is_call(c, "Interner::intern_or_get", nargs=2) and self_field(b, c[2][0], "types") and c[2][1] == arg(b, 2)
-        ncalls = [b.callee_name(t) for _, t in b.calls()]
-        chk.expect(ok and len([n for n in ncalls if last(n) == "intern_or_get"]) == 1, rule, "builder:register_type", b.where(), path_str(rt), cfg)
-    b = anchor(chk, prog, "PortableRegistryBuilder::next_type_id")
-    if b is not None:
-        rt = b.return_term()
-        t = uncast(rt)
-        e = unref(t[2][0]) if is_call(t, "len", nargs=1) else None
-        ok = rt[0] == "cast" and e is not None and is_call(e, "Interner::elements", nargs=1) and self_field(b, e[2][0], "types")
-        chk.expect(ok, rule, "builder:next_type_id", b.where(), path_str(rt), cfg)
-    b = anchor(chk, prog, "PortableRegistryBuilder::get")
-    if b is not None:
-        rt = b.return_term()
-        ok = False
-        if is_call(rt, "core::slice::<impl [T]>::get", nargs=2):
-            base = unref(rt[2][0])
-            idx = uncast(rt[2][1])
-            ok = is_call(base, "Interner::elements", nargs=1) and self_field(b, base[2][0], "types") and idx == arg(b, 2) and rt[2][1][0] == "cast"
-        chk.expect(ok, rule, "builder:get", b.where(), path_str(rt), cfg)
+    from ..lib import symrun, absint as _ai
+    S_ = _ai.Sym
+    E = (S_("t0"), S_("t1"), S_("t2"))
+
+    class BR(symrun.Run):
+        """the builder's interner is a symbolic table: intern_or_get is an opaque effect, `elements()` its contents"""
+
+        def handler(self, name, args, t):
+            sp = mir.strip_generics(name)
+            if sp.endswith("Interner::intern_or_get") and len(args) == 2:
+                self.log.append(("intern_or_get", args[0], args[1]))
+                return ("tuple", [S_("INSERTED"), ("variant", "Symbol", [S_("ID"), ("tuple", [])], 0, ("id", "marker"), SYM)])
+            if sp.endswith("Interner::elements") and len(args) == 1:
+                self.log.append(("elements", args[0]))
+                return ("vec", E)
+            return symrun.Run.handler(self, name, args, t)
+
+    def builder():
+        return symrun.struct(prog, PRB, "self", types=S_("self.types"))
+
+    def judge(key, fn, args, good):
+        b_ = anchor(chk, prog, "PortableRegistryBuilder::" + fn)
+        if b_ is None:
+            return
+        r = BR(prog)
+        try:
+            v = r.run(b_.path, args)
+            ok, detail = good(v, r.log)
+        except _ai.Unrecognised as e:
+            ok, detail = False, "cannot interpret (or panics): %s" % e
+        chk.expect(ok, rule, key, b_.where(), detail, cfg)
+    judge("builder:register_type", "register_type", [builder(), S_("TY")],
+          lambda v, log: (v == S_("ID") and [x for x in log if x[0] == "intern_or_get"] == [("intern_or_get", S_("self.types"), S_("TY"))],
+                          "returns %s after %s (required: the id intern_or_get(self.types, ty) answers, one call)" % (symrun.show(v), [x[0] for x in log])))
+    judge("builder:next_type_id", "next_type_id", [builder()],
+          lambda v, log: (v == 3 and all(x == ("elements", S_("self.types")) for x in log) and bool(log),
+                          "with 3 registered types next_type_id() = %s (required: the number of elements)" % symrun.show(v)))
+    for pos, want in ((0, ("Some", E[0])), (2, ("Some", E[2])), (3, ("None",)), (9, ("None",))):
+        judge("builder:get", "get", [builder(), pos],
+              lambda v, log, want=want, pos=pos: (_ai.opt_view(v) == want, "with 3 registered types get(%d) = %s" % (pos, symrun.show(v))))
 
 
 # -------------------------------------------------------------------------- R1.2
@@ -355,7 +359,14 @@ def check_who_may_write(chk, prog, cfg, rule="R1.1"):
             if m[0] == "call":
                 key = ("call", mir.strip_generics(m[1].path), m[3])
                 where = m[1].where(m[2])
-                if key in allowed or (m[3] in ops and owner_ok(key[1], roots)):
+                via = None
+                if m[3] not in ops:
+                    w_ = who.wrapper_ops(prog, mir.strip_generics(m[3]), m[4])
+                    if w_ and w_ <= ops:
+                        via = m[3]      # a private wrapper that only forwards the reference to the allowed operation(s)
+                if key in allowed or ((m[3] in ops or via) and owner_ok(key[1], roots)):
+                    if via:
+                        key = (key[0], key[1], sorted(w_)[0])
                     seen.add(key)
                     chk.ok(rule, "write:%s.%s:%s:%s" % (last(adt), field, last(key[1]), last(key[2])), where, "allowed append", cfg)
                 else:
@@ -405,24 +416,29 @@ def check_from_registry(chk, prog, cfg, rule="R1.4"):
         chk.anchor_missing("From<Registry> for PortableRegistry")
         return
     b = prog.body(cands[0])
-    rt = b.return_term()
+    from ..lib import symrun, absint as _ai
+    S_ = _ai.Sym
+    KEYS = [symrun.struct(prog, USYM, "k%d" % i_, id=S_("id%d" % i_)) for i_ in range(3)]
+    VALS = [S_("ty%d" % i_) for i_ in range(3)]
+
+    class FR(symrun.Run):
+        def handler(self, name, args, t):
+            sp = mir.strip_generics(name)
+            if sp == "scale_info::registry::Registry::types" and len(args) == 1:
+                self.log.append(("types", args[0]))
+                return self.handler("core::iter::traits::collect::IntoIterator::into_iter", [("vec", tuple(("tuple", [k_, v_]) for k_, v_ in zip(KEYS, VALS)))], t)
+            return symrun.Run.handler(self, name, args, t)
+    r = FR(prog)
     ok = False
-    detail = path_str(rt)
-    rt = mir.simplify(mir.inline_call(prog, rt))
-    if is_adt_agg(rt, PR):
-        sm = loops.seq_map(prog, b, agg_field(rt, "types"))
-        if sm is not None and sm[1].kind != "fn":
-            src, lam = sm
-            src = mir.strip_clones(src)
-            eb, item = lam.body, lam.item
-            crt = mir.strip_clones(mir.simplify(mir.inline_call(prog, lam.result)))
-            if is_call(src, "Registry::types", nargs=1) and unref(src[2][0]) == arg(b, 1) and is_adt_agg(crt, PT):
-                idt, tyt = agg_field(crt, "id"), agg_field(crt, "ty")
-                ap = paths.access_path(eb, idt, roots={item})
-                okid = ap is not None and ap[0] == item and ap[1] == ".0.id"
-                okty = not [c_ for c_ in mir.calls_in(tyt) if c_ not in mir.calls_in(item)] and paths.access_path(eb, tyt, roots={item}) == (item, ".1")
-                ok = okid and okty
-                detail = "%s form: for each item of registry.types(): %s" % (lam.kind, path_str(crt)[:160])
+    try:
+        v = r.run(cands[0], [S_("registry")])
+        tys = symrun.field(v, "types") if symrun.is_struct(v, PR) else None
+        ok = isinstance(tys, tuple) and tys[:1] == ("vec",) and len(tys[1]) == 3 and all(
+            symrun.is_struct(x, PT) and symrun.field(x, "id") == S_("id%d" % i_) and symrun.field(x, "ty") == VALS[i_] for i_, x in enumerate(tys[1])) \
+            and [x for x in r.log if x[0] != "push"] == [("types", S_("registry"))]
+        detail = "registry.types() = [(k0, ty0), (k1, ty1), (k2, ty2)]  ->  %s" % symrun.show(v)[:260]
+    except _ai.Unrecognised as e:
+        detail = "cannot interpret: %s" % e
     chk.expect(ok, rule, "From<Registry>:pairs-key-id-with-its-value", b.where(), detail, cfg)
     bt = anchor(chk, prog, "registry::Registry::types")
     if bt is not None:
@@ -492,23 +508,26 @@ def check_finish(chk, prog, cfg, rule="R1.6"):
     b = anchor(chk, prog, "PortableRegistryBuilder::finish")
     if b is None:
         return
-    rt = b.return_term()
+    from ..lib import symrun, absint as _ai
+    S_ = _ai.Sym
+    E = (S_("t0"), S_("t1"), S_("t2"))
+
+    class FN(symrun.Run):
+        def handler(self, name, args, t):
+            sp = mir.strip_generics(name)
+            if sp.endswith("Interner::elements") and len(args) == 1:
+                self.log.append(("elements", args[0]))
+                return ("vec", E)
+            return symrun.Run.handler(self, name, args, t)
+    r = FN(prog)
     ok = False
-    detail = path_str(rt)
-    rt = mir.simplify(mir.inline_call(prog, rt))
-    if is_adt_agg(rt, PR):
-        sm = loops.seq_map(prog, b, agg_field(rt, "types"))
-        if sm is not None and sm[1].kind != "fn":
-            src, lam = sm
-            src = mir.strip_clones(src)
-            eb, item = lam.body, lam.item
-            crt = mir.strip_clones(mir.simplify(mir.inline_call(prog, lam.result)))
-            if is_call(src, "core::iter::traits::iterator::Iterator::enumerate", nargs=1) and is_call(src[2][0], "core::slice::<impl [T]>::iter", nargs=1):
-                el = unref(src[2][0][2][0])
-                if is_call(el, "Interner::elements", nargs=1) and self_field(b, el[2][0], "types") and is_adt_agg(crt, PT):
-                    idt, tyt = agg_field(crt, "id"), agg_field(crt, "ty")
-                    okid = idt[0] == "cast" and paths.access_path(eb, uncast(idt), roots={item}) == (item, ".0")
-                    okty = not [c_ for c_ in mir.calls_in(tyt) if c_ not in mir.calls_in(item)] and paths.access_path(eb, tyt, roots={item}) == (item, ".1")
-                    ok = okid and okty
-                    detail = "%s form: enumerate() item -> %s" % (lam.kind, path_str(crt)[:160])
+    try:
+        v = r.run(b.path, [symrun.struct(prog, PRB, "self", types=S_("self.types"))])
+        tys = symrun.field(v, "types") if symrun.is_struct(v, PR) else None
+        ok = isinstance(tys, tuple) and tys[:1] == ("vec",) and len(tys[1]) == 3 and all(
+            symrun.is_struct(x, PT) and symrun.field(x, "id") == i_ and symrun.field(x, "ty") == E[i_] for i_, x in enumerate(tys[1])) \
+            and all(x == ("elements", S_("self.types")) for x in r.log if x[0] != "push") and bool(r.log)
+        detail = "with elements [t0, t1, t2]: finish() = %s" % symrun.show(v)[:260]
+    except _ai.Unrecognised as e:
+        detail = "cannot interpret: %s" % e
     chk.expect(ok, rule, "finish", b.where(), detail, cfg)
